@@ -53,6 +53,7 @@ macro_rules! check_near_vec {
 }
 
 mod regime;
+mod spread;
 
 pub(crate) fn qa<S: Copy>(q: Quaternion<S>) -> [S; 4] {
     [q.w, q.x, q.y, q.z]
@@ -210,6 +211,8 @@ enum PairClass {
     NearlyAntiparallel,
     /// to = -lambda * from up to rounding (lambda not a power of two), optionally tilted by a tiny angle
     AlmostAntiparallel,
+    /// components with independent binary exponents
+    Spread,
 }
 
 /// A float pair (from, to) enclosing exactly the angle `delta` (to rounding of the cast), or pi - delta when `anti`.
@@ -238,7 +241,7 @@ fn near_pair<S: Dom>(t: &mut Tape, delta: f64, anti: bool, mu: S) -> ([S; 3], [S
 
 /// Direction pairs. Returns (from, to, class).
 fn gen_pair<S: Dom>(t: &mut Tape, cx: &mut Cx) -> ([S; 3], [S; 3], PairClass) {
-    let sel = t.below(11);
+    let sel = t.below(12);
     // vectors whose relevant partial sums of squares are all perfect squares, per 180-degree sub-branch
     const ANTI: [[i64; 3]; 12] = [
         [9, 12, 8],  // |x| > |z|, x^2+y^2 = 15^2, total 17^2
@@ -311,6 +314,15 @@ fn gen_pair<S: Dom>(t: &mut Tape, cx: &mut Cx) -> ([S; 3], [S; 3], PairClass) {
                 let (f, g) = near_pair::<S>(t, delta, true, regime::cast(lambda));
                 (f, g, PairClass::AlmostAntiparallel)
             }
+        }
+        7 if !S::EXACT => {
+            // components with independent binary exponents (dominant one 2^-4..2^4, the others lower by up to the whole
+            // range: their squares underflow), every sign pattern, zeros
+            cx.label("components with independent exponents");
+            let floor = if f32ish { -100 } else { -900 };
+            let f: [S; 3] = spread::gen_spread::<S, 3>(t, cx, -4, 4, floor);
+            let g: [S; 3] = spread::gen_spread::<S, 3>(t, cx, -4, 4, floor);
+            (f, g, PairClass::Spread)
         }
         _ => {
             if S::EXACT || t.bool() {
@@ -427,7 +439,10 @@ fn from_to<S: Dom>(t: &mut Tape, cx: &mut Cx) -> CaseResult {
     check_mat!(cx, S, rm::Mat4::<S>::rotation_from_to_3d(vk::v3(&from), vk::v3(&to)).to_arr(), m4, 1.0, K, "row Mat4::rotation_from_to_3d");
     // the result depends on the two *directions* only: every operation commutes exactly with scaling by powers of two
     // (in the F14 band the f32 result is decided by rounding noise, which one underflowed square may flip: f64 only there)
-    if (ea != 0 || eb != 0) && !(in_band && S::NAME == "f32") {
+    // The relation needs the scaling itself to be exact (a component of the spread class can underflow when scaled down) and,
+    // inside the band, no underflowing square at all (the branch taken there may hinge on one bit).
+    let exact_scaling = (0..3).all(|i| from[i] / sa == from0[i] && to[i] / sb == to0[i]);
+    if (ea != 0 || eb != 0) && exact_scaling && !(in_band && (S::NAME == "f32" || class == PairClass::Spread)) {
         let a0 = qa(Quaternion::<S>::rotation_from_to_3d(vk::v3(&from0), vk::v3(&to0)));
         for i in 0..4 {
             cx.count();
@@ -568,8 +583,8 @@ pub fn property() -> Property {
     tape!("action-f64", b, 96, 20_000, 500_000, action::<f64>);
     let c = "rotation_from_to_3d (quaternion, Mat3, Mat4, both layouts): unit, maps `from` onto a positive multiple of `to` (relative to |from||to|) for generic, parallel, exactly antiparallel (every 180-degree sub-branch), nearly parallel (angle down to 2^-45 / 2^-20), nearly antiparallel (pi - delta, delta down to 8 sqrt(eps)) and almost exactly opposite pairs (to = -lambda*from rounded, tilt 0 .. 1e-3 rad; finding F14), `from` and `to` scaled independently and exactly by 2^a, 2^b (result must not change)";
     tape!("from-to-rat", c, 80, 40_000, 1_000_000, from_to::<Rat>);
-    tape!("from-to-f64", c, 128, 40_000, 1_000_000, from_to::<f64>);
-    tape!("from-to-f32", c, 128, 40_000, 1_000_000, from_to::<f32>);
+    tape!("from-to-f64", c, 160, 40_000, 1_000_000, from_to::<f64>);
+    tape!("from-to-f32", c, 160, 40_000, 1_000_000, from_to::<f32>);
     let d = "into_angle_axis for angles in (-2pi, 2pi) incl. small (down to 2^-60 / 2^-30), next to a half turn and next to a full turn, q from rotation_3d or built without vek: finite, unit axis (any unit axis when w = +-1), angle in [0, 2pi], rebuilding the rotation from them gives the same rotation (+-q) within 64 eps / max(|sin(angle/2)|, sqrt(eps))";
     tape!("angle-axis-f64", d, 48, 40_000, 1_000_000, angle_axis::<f64>);
     tape!("angle-axis-f32", d, 48, 20_000, 500_000, angle_axis::<f32>);
@@ -580,10 +595,14 @@ pub fn property() -> Property {
     tape!("algebra-scale-rat", f, 48, 8_000, 500_000, regime::algebra_scale::<Rat>);
     tape!("algebra-scale-f64", f, 48, 20_000, 1_000_000, regime::algebra_scale::<f64>);
     tape!("algebra-scale-f32", f, 48, 20_000, 1_000_000, regime::algebra_scale::<f32>);
+    let g = "quaternions / vectors whose components have independent binary exponents (sign * mantissa * 2^k_i, spread up to the whole range in which the sum of squares stays finite, the small squares underflow; every sign pattern incl. negative dominant component; zeros; unit quaternions with tiny components such as -rotation_x(-1e-25)): magnitude, magnitude_squared, dot, normalized and inverse (component by component, relative to the component), q q^-1 = q^-1 q = 1, conjugate / neg / + / - / scalar mul and div exact, Hamilton product and dot against double-double sums over the i,j,k table (relative to the sum of |terms|), |pq| = |p||q|, conj(pq) = conj(q)conj(p), action q*Vec3 / q*Vec4 / Mat3 / Mat4::from(q) of spread unit quaternions on spread vectors";
+    tape!("spread-rat", g, 128, 10_000, 500_000, spread::spread_exact::<Rat>);
+    tape!("spread-f64", g, 320, 40_000, 2_000_000, spread::spread::<f64>);
+    tape!("spread-f32", g, 320, 40_000, 2_000_000, spread::spread::<f32>);
     tape!("conversions-sym", "conversions to/from Vec4, Vec3, (scalar, vector), from_xyzw, conjugate, identity are field-exact on opaque terms", 4, 2_000, 20_000, conversions);
     Property {
         id: "C05",
-        rule: "arbitrary quaternions with small rational/float components; unit quaternions from the rational parametrisation of S^3 (a quarter of them with the parameters scaled by 2^-k: next to +-1, +-i, +-j, +-k); direction pairs by class: exactly antiparallel (12 base vectors covering |x|>|z|, |x|<|z|, |x|=|z|, axis-aligned, scaled by independent rationals), parallel, generic constructed so that every square root is rational, random float pairs, nearly parallel and nearly antiparallel float pairs with a log-uniform enclosed angle, almost exactly opposite float pairs (to = -lambda*from rounded with a random lambda, tilted by 0 or by a log-uniform angle up to 1e-3 rad), every pair additionally scaled by independent powers of two in half of the cases; angles in (-2pi,2pi) incl. log-uniform small ones and neighbours of pi and 2pi; regime checks: unit quaternions built without vek from (axis, angle) with angle regimes {small down to 2^-60 (f64) / 2^-30 (f32), next to a half turn, next to a full turn, next to a multiple of pi/2, many turns, ordinary} applied to vectors scaled by 2^k (|k| <= 200 / 24), non-unit quaternions scaled by 2^a (|a| <= 200 / 24 / 10); non-trivial = all four components non-zero and pq != qp (algebra/action), from has >= 2 non-zero components (from-to), |sin(angle/2)| > 8 sqrt(eps) (angle-axis), displacement |q*v - v| > 8 * tolerance and v without zero component (near-identity), all eight components non-zero (algebra-scale); distinct = distinct consumed tape prefix",
+        rule: "arbitrary quaternions with small rational/float components; unit quaternions from the rational parametrisation of S^3 (a quarter of them with the parameters scaled by 2^-k: next to +-1, +-i, +-j, +-k); direction pairs by class: exactly antiparallel (12 base vectors covering |x|>|z|, |x|<|z|, |x|=|z|, axis-aligned, scaled by independent rationals), parallel, generic constructed so that every square root is rational, random float pairs, nearly parallel and nearly antiparallel float pairs with a log-uniform enclosed angle, almost exactly opposite float pairs (to = -lambda*from rounded with a random lambda, tilted by 0 or by a log-uniform angle up to 1e-3 rad), every pair additionally scaled by independent powers of two in half of the cases; angles in (-2pi,2pi) incl. log-uniform small ones and neighbours of pi and 2pi; regime checks: unit quaternions built without vek from (axis, angle) with angle regimes {small down to 2^-60 (f64) / 2^-30 (f32), next to a half turn, next to a full turn, next to a multiple of pi/2, many turns, ordinary} applied to vectors scaled by 2^k (|k| <= 200 / 24), non-unit quaternions scaled by 2^a (|a| <= 200 / 24 / 10); non-trivial = all four components non-zero and pq != qp (algebra/action), from has >= 2 non-zero components (from-to), |sin(angle/2)| > 8 sqrt(eps) (angle-axis), displacement |q*v - v| > 8 * tolerance and v without zero component (near-identity), all eight components non-zero (algebra-scale), at least three non-zero components (spread); spread checks: every component sign * mantissa * 2^k_i with one dominant exponent (f32 -50..61, f64 -480..509; pairs half of that so that |pq| stays in range) and independent gaps for the others (0..8 / 8..70 / 60..160 / 150..1100 / 0..2200, clamped at the smallest subnormal), sign patterns {dominant negative and the rest non-negative, all non-positive, all non-negative, free}, 15 % zeros, unit quaternions obtained by dividing such a quadruple by its double-double norm; the from-to checks draw 1/12 of the float pairs with independent component exponents, near-identity draws a third of its small angles from 2^-30..2^-120 (f32) / 2^-60..2^-1000 (f64); distinct = distinct consumed tape prefix",
         assumptions: &[
             "rustc and the proptest runner/shrinker are trusted",
             "oracle: Hamilton product expanded over the i,j,k multiplication table (vkit::refmath::hamilton), rotation = q (0,v) q*",
@@ -592,6 +611,7 @@ pub fn property() -> Property {
             "from-to in floats, outside the band below: w = |f||t| + f.t and f x t carry an absolute rounding error ~eps |f||t| in the documented (GLM) formula, so the direction of the image is allowed eps * K * 2/|f^ + t^| for nearly antiparallel pairs",
             "from-to, band |f^ + t^|^2 <= 64 eps (opposite to within 8 sqrt(eps)) other than the exactly antiparallel class with power-of-two ratios: the image must be a positive multiple of `to` within 8 sqrt(eps) |from||to| * 4. That is the continuation of the 2/delta allowance granted to nearly antiparallel pairs outside the band, i.e. the accuracy the documented (from x to, |f||t| + f.t) construction with its half-turn shortcut can reach; a uniformly eps-accurate from-to would need a different construction (half turn composed with the residual small rotation) and is not demanded. The defect F14-from-to-almost-opposite (|f||t| + f.t computed with cancellation, so rounding noise decided the 180-degree guard: identity returned, image tens of degrees off) is orders of magnitude above this tolerance; it is tolerated only while listed as open in KNOWN_FINDINGS.json. Pairs of that band are CONSTRUCTED (to = -lambda*from rounded, tilt 0 or log-uniform up to 1e-3 rad), ~9 % of the float cases",
             "angle-axis: angle = 2 acos(w) turns an error eps in w into eps / sin(angle/2) in the angle and into sqrt(eps) at worst (w next to +-1), so the rebuilt rotation is compared at 64 eps / max(|sin(angle/2)|, sqrt(eps)); in particular for rotation angles below ~2 sqrt(eps) (w rounds to 1) the extracted angle is 0 and only 'identity to within sqrt(eps)' is asserted - the relative accuracy of a tiny extracted angle is NOT asserted (acos(w) cannot provide it; the vector part could)",
+            "spread oracle: sums of squares and signed sums of products over the i,j,k table in double-double arithmetic (fma error-free products, compensated sums, one Newton step for the square root) on the exact f64 values of the components; tolerances are relative to the RESULT: 8 eps |q| (magnitude), 8 eps |q|^2, 8 eps |component| + 2 subnormal units for every component of normalized and inverse, 8 eps * sum|terms| + 4 subnormal units per component of a product / dot (the backward-stable bound of any summation order), 32 eps |p||q| for |pq|; domain: 4 max^2 finite and max^2 >= min_positive / eps (so underflowing small squares stay below eps relative) - outside it the plain sum of squares overflows / underflows in every implementation that does not rescale, which the docs do not promise",
             "non-unit quaternions applied to vectors are outside the property (docs: 'assuming the quaternion is normalized'); only unit quaternions (to rounding) are applied",
         ],
         checks,
